@@ -58,7 +58,8 @@ def reverts():
     n = c = 0
     for r in _jsonl("revert_fix.jsonl"):
         if r.get("revert") != "clean":
-            out.append(f"| {r['commit']} {r['subject'][:70]} | - | revert does not apply cleanly (later commits build on it) | |")
+            why = r["revert"] if str(r.get("revert", "")).startswith("unusable") else "revert does not apply cleanly (later commits build on it)"
+            out.append(f"| {r['commit']} {r['subject'][5:75]} | - | {why} | |")
             continue
         for k, v in r.items():
             if not (k.startswith("C") and isinstance(v, dict)):
